@@ -178,19 +178,23 @@ func vCfgEntry(r *rand.Rand, id, ts, rev int64) *vEntry {
 }
 
 type vGen struct {
-	script []*vEntry // scripted warm-up: registered users (and a services link) before the random phase
-	r      *rand.Rand
-	id     int64
-	ts     int64
-	cmid   int64
-	rev    int64
-	length int
-	minlen int // a scripted warm-up that is longer than the history length extends the history
-	wild   int // percentage of client lines drawn from the grammar/mutation fuzzer instead of the alphabet
+	script   []*vEntry // scripted warm-up: registered users (and a services link) before the random phase
+	r        *rand.Rand
+	id       int64
+	ts       int64
+	cmid     int64
+	rev      int64
+	length   int
+	realtime bool // ts is set from the wall clock before every entry (HTTP-level stage)
+	minlen   int  // a scripted warm-up that is longer than the history length extends the history
+	wild     int  // percentage of client lines drawn from the grammar/mutation fuzzer instead of the alphabet
 }
 
 func (g *vGen) tick() {
 	g.id++
+	if g.realtime {
+		return // entries are stamped by a real clock: the generator's notion of "now" must not run ahead of it
+	}
 	switch g.r.Intn(40) {
 	case 0:
 		g.ts += 61
